@@ -134,6 +134,9 @@ type Thread struct {
 	Ready      func(e *Engine, st *State) bool
 	Quiesced   bool
 	Yielded    bool
+	TimerWait  bool // parked on a select whose only ready cases were timers that have "not fired yet" (nd.LazyTimers)
+	TimerKick  bool // time has passed: the timer fires when the select is executed again
+	kickStep   int
 }
 
 func (t *Thread) clone() *Thread {
@@ -188,6 +191,7 @@ type State struct {
 	YieldFrom int
 	TimerFired int
 	VisibleAtomics bool
+	LazyTimers bool // a timer may also fire later than everything that is currently enabled (nd.LazyTimers)
 	WatchAll bool // every load/store of a heap object is a scheduling point (nd.WatchAll)
 	Watched []int // objects whose plain loads and stores are scheduling points (nd.Watch); shared, append-only
 	ConcreteClock bool
@@ -226,7 +230,7 @@ func (st *State) fork() *State {
 		id: stateSeq, nextObj: st.nextObj, Cur: st.Cur,
 		Steps: st.Steps, SymBr: st.SymBr, PanicLbl: st.PanicLbl, Depth: st.Depth, Preempts: st.Preempts,
 		LastNow: st.LastNow, Epoch: st.Epoch, NoSched: st.NoSched, noSchedStep: st.noSchedStep, NeedSched: st.NeedSched, PoolReuse: st.PoolReuse, YieldFrom: st.YieldFrom, TimerFired: st.TimerFired, VisibleAtomics: st.VisibleAtomics, ConcreteClock: st.ConcreteClock, ClockTick: st.ClockTick,
-		Watched: st.Watched[:len(st.Watched):len(st.Watched)], WatchAll: st.WatchAll,
+		Watched: st.Watched[:len(st.Watched):len(st.Watched)], WatchAll: st.WatchAll, LazyTimers: st.LazyTimers,
 	}
 	// the parent also needs a new id so that neither mutates shared objects in place
 	stateSeq++
